@@ -13,14 +13,36 @@ COLL_NOTE = ("Trusted: TLC + CommunityModules Json; the verif hooks sit at the l
              "expected values are computed by TLC, the Go harness has no reference model; exhaustive only within the constants "
              "listed in the evidence; larger spaces are sampled by seeded TLC random walks.")
 
+T = "TLA+ model checking (TLC on MossColl) + replay of TLC-generated behaviours and lead counterexamples into the gated implementation"
 CHECKS = {
  "C01": dict(text="TLC checks MossColl!ViewIsRef/OverlayIsRef exhaustively on the bounded model (every placement of merger ingest/swap/hand-off, "
              "persister update/swap between the batches); TLC-generated behaviours are replayed through the real library with merger and persister held at gates, "
              "everything observable read back after every step, over in-memory / application lower level / mossStore x CachePersisted x DeferredSort x MinMergePercentage x compaction concern.",
-             technique="TLA+ model checking (TLC) + replay of TLC behaviours into the gated implementation", ref="6/C01"),
- "C10": dict(text="TLC checks MossColl!DirectGetAgrees (Collection.Get written as the code's chain vs the snapshot evaluation); replays compare Collection.Get, Snapshot.Get "
-             "and the iteration entry for every key of the universe after every step, with and without NoCopyValue.",
-             technique="TLA+ model checking (TLC) + replay of TLC behaviours into the gated implementation", ref="6/C10"),
+             technique=T, ref="6/C01"),
+ "C02": dict(text="Behaviours with TakeSnapshot at arbitrary states; every held snapshot (with child snapshots and a full iteration) is re-read after every later batch, merger and "
+             "persister step, forced compaction that unlinks its data file, Close and reopen, and must equal the content TLC froze when it was taken.",
+             technique=T, ref="6/C02"),
+ "C04": dict(text="TLC checks MossColl!StoreIsPrefix (what the lower level holds is the reference after a prefix of the batches) with Close and Reopen actions; behaviours with up to two "
+             "close/reopen cycles are replayed store-backed; reopened content must be the full reference when the model says persistence had caught up, a prefix otherwise.",
+             technique=T, ref="6/C04"),
+ "C08": dict(text="Set/Del/Merge behaviours with the non-commutative append operator; the code-shaped evaluation (segmentStack.get chain, mergeInto with tail copy, base and captured lower level) "
+             "is checked against the fold on the bounded model and every read path of the implementation is compared at every step (memory, application lower level, mossStore, compaction, reopen, CachePersisted, child collection).",
+             technique=T, ref="6/C08"),
+ "C10": dict(text="TLC checks MossColl!DirectGetAgrees; replays compare Collection.Get, Snapshot.Get and the iteration entry for every key of the universe after every step, with and without NoCopyValue; "
+             "lead behaviours of the historical chain-on-nil deviation are replayed as regression cases.",
+             technique=T, ref="6/C10"),
+ "C11": dict(text="Behaviours over a tree of child names (create, child-only batch, delete, recreate, nested) with incarnation numbers modelled as the code keeps them; names and content of every "
+             "child at every level are compared from collection snapshots, the store snapshot and after reopen, under every compaction concern.",
+             technique=T, ref="6/C11"),
+ "C13": dict(text="Application lower level implementing the documented LowerLevelUpdate protocol; TLC enumerates any pattern of update failures; after every step the application's store must "
+             "equal the reference after a prefix and, overlaid with the unpersisted sections, the full reference.",
+             technique=T, ref="6/C13"),
+ "C19": dict(text="The MossColl data-path behaviours replayed under seeded adversarial concretisations of the abstract keys and values (empty key, 0x00/0xFF bytes, magic-like bytes, shared prefixes, empty values) "
+             "through memory, merging, persistence, compaction and reopen; class-based exploration of the input dimension.",
+             technique=T, ref="6/C19"),
+ "C20": dict(text="TLC checks MossColl!GaugesZeroImpliesPersisted with Stats modelled as the code computes it; replays sample Stats() after every step and compare the lower level's own snapshot "
+             "with the reference whenever all dirty gauges are zero (one open finding: structure-only batches).",
+             technique=T, ref="6/C20"),
 }
 
 NA = {
